@@ -122,6 +122,8 @@ class ModProxy:
 
 def child_main(world, proc, args, stdin, stdout):
     kind, _ = classify(args)
+    if kind == "import" and proc.info.get("host_bare"):
+        kind = "bare"
     proc.info["boot_kind"] = kind
     s = world.sched
     if kind == "ssh-fail":
@@ -193,7 +195,13 @@ def child_main(world, proc, args, stdin, stdout):
         return mod
 
     def my_exec(source, globs=None, locs=None):
-        if globs is not None and globs is not ns:
+        if globs is None:
+            # like the builtin: default to the caller's namespaces
+            fr = sys._getframe(1)
+            globs = fr.f_globals
+            if globs is not ns:
+                locs = fr.f_locals
+        if globs is not ns:
             # keep the guarded builtins for code exec'd by the shipped copy (remote bodies)
             if bare and isinstance(globs, dict) and "__builtins__" not in globs:
                 globs["__builtins__"] = bdict
@@ -218,7 +226,7 @@ def child_main(world, proc, args, stdin, stdout):
     bdict["exec"] = my_exec
     ns["__builtins__"] = bdict
     try:
-        my_exec(prog)
+        my_exec(prog, ns)
     except SystemExit as e:
         code = e.code
         proc.exit(code if isinstance(code, int) else (0 if code is None else 1))
